@@ -39,7 +39,7 @@ func (v vmsg) encode() string {
 	return m.String()
 }
 
-var c19Ops = []string{"AppendData", "AppendComment", "SetID", "Clone", "UnmarshalText", "ID.UnmarshalText(reused buffer)"}
+var c19Ops = []string{"AppendData", "AppendComment", "SetID", "Clone", "UnmarshalText", "ID.UnmarshalText(reused buffer)", "AppendData(x CR)", "AppendData(LF x)"}
 
 // runCloneSeq applies a sequence of operations (op*3+target) to a family of at most 3 messages and to the
 // value model; after every step every message must encode like its model.
@@ -83,6 +83,14 @@ func runCloneSeq(seq []uint8) string {
 				return "ID.UnmarshalText failed: " + err.Error()
 			}
 			model[tgt].id, model[tgt].hasID = x, true
+		case 6:
+			// text ending in a lone CR, and (7) text starting with LF: whatever the library makes of a line break that
+			// is split over two calls, a message must encode like one built on its own by the same calls
+			real[tgt].AppendData(x + "\r")
+			model[tgt].lines = append(model[tgt].lines, "d:"+x+"\r")
+		case 7:
+			real[tgt].AppendData("\n" + x)
+			model[tgt].lines = append(model[tgt].lines, "d:\n"+x)
 		}
 		// all messages are encoded first (through MarshalText: the results are kept side by side), then compared:
 		// what one message encoded to must not change when another one is encoded
@@ -255,6 +263,51 @@ func checkInterleavedEncoding(k *collector) {
 	}
 }
 
+type nullWriter struct{}
+
+func (nullWriter) Send(*sse.Message) error { return nil }
+func (nullWriter) Flush() error            { return nil }
+
+// checkReplayKeepsCallersMessages: with publisher-set IDs the replayers store the caller's own messages; replaying
+// them (any number of times) must leave them exactly as they were published.
+func checkReplayKeepsCallersMessages(k *collector) {
+	for _, valid := range []bool{false, true} {
+		var r sse.Replayer
+		if valid {
+			v, _ := sse.NewValidReplayer(time.Hour, false)
+			r = v
+		} else {
+			f, _ := sse.NewFiniteReplayer(4, false)
+			r = f
+		}
+		var msgs []*sse.Message
+		var before []string
+		for i := 0; i < 3; i++ {
+			m := &sse.Message{ID: sse.ID(fmt.Sprint("id", i)), Type: sse.Type("kind"), Retry: time.Duration(i+2) * time.Second}
+			m.AppendData("d", fmt.Sprint(i))
+			m.AppendComment("c")
+			msgs = append(msgs, m)
+			before = append(before, m.String())
+			if _, err := r.Put(m, []string{"a"}); err != nil {
+				k.fail("C19: putting a valid message fails", err.Error(), "replay keeps messages")
+				return
+			}
+		}
+		for round := 0; round < 2; round++ {
+			k.cases.Add(1)
+			k.nontriv.Add(1)
+			_ = r.Replay(sse.Subscription{Client: nullWriter{}, Topics: []string{"a"}, LastEventID: sse.ID("id0")})
+			for i, m := range msgs {
+				if m.String() != before[i] {
+					what := fmt.Sprintf("replayer valid=%v with publisher-set IDs: three messages put, then replayed from the first", valid)
+					k.fail("C19: replaying changes a message the caller published", fmt.Sprintf("%s: message #%d now encodes to %q (published as %q)", what, i, m.String(), before[i]), what)
+					return
+				}
+			}
+		}
+	}
+}
+
 // scripted replayers for checkPublish
 type errReplayer struct{}
 
@@ -347,6 +400,7 @@ var C19 = &sqrun.Check{ID: "C19", QuickBudget: 60, ThoroughBudget: 600,
 			}
 		}
 		checkInterleavedEncoding(k)
+		checkReplayKeepsCallersMessages(k)
 		for _, rep := range []string{"none", "finite", "valid", "error", "panic"} {
 			for _, auto := range []bool{false, true} {
 				for _, withID := range []bool{false, true} {
